@@ -24,7 +24,7 @@ Eff(bs, cs, a) ==
   CASE a.op = "New" ->
          (* an argument the member constructors refuse yields the zero Member, which New refuses *)
          IF \E i \in 1..Len(a.args) : ~MemberArgOK(a.args[i]) THEN [bags |-> bs, ctxs |-> cs]
-         ELSE LET r == NewVerdict(AsMembers(a.args), [i \in 1..Len(a.args) |-> MemberLen(ToMember(a.args[i]))]) IN
+         ELSE LET r == NewVerdict(AsMembers(a.args), [i \in 1..Len(a.args) |-> WireLen(ToMember(a.args[i]))]) IN
               IF r.out = "accept" THEN WithBag(bs, cs, r.b) ELSE [bags |-> bs, ctxs |-> cs]
     [] a.op = "SetMember" ->
          (* ... and SetMember refuses it as well and returns the ORIGINAL baggage *)
@@ -39,7 +39,9 @@ Eff(bs, cs, a) ==
     [] a.op = "ClearCtx" -> WithCtx(bs, cs, <<>>)
     [] a.op = "Child" -> WithCtx(bs, cs, cs[a.c])
     [] a.op = "Propagate" ->
-         LET r == ParseHeader(Serialize(cs[a.c])) IN
-         WithCtx(bs, cs, IF cs[a.c] = <<>> \/ r.out # "accept" THEN cs[a.p] ELSE r.b)
+         (* only members (and properties) with token keys travel; nothing to send = no header = parent *)
+         LET w == TokenPart(cs[a.c])
+             r == ParseHeader(Serialize(w)) IN
+         WithCtx(bs, cs, IF w = <<>> \/ r.out # "accept" THEN cs[a.p] ELSE r.b)
     [] a.op = "Scribble" -> [bags |-> bs, ctxs |-> cs]
 =============================================================================
